@@ -704,7 +704,11 @@ class CodeGenerator(NodeVisitor):
             self.outdent()
         self.pop_parameter_definitions()
 
+        # The body is a function of its own, nesting starts over.
+        eval_ctx_depth = self._eval_ctx_depth
+        self._eval_ctx_depth = 0
         self.blockvisit(node.body, frame)
+        self._eval_ctx_depth = eval_ctx_depth
         self.return_buffer_contents(frame, force_unescaped=True)
         self.leave_frame(frame, with_python_scope=True)
         self.outdent()
